@@ -26,21 +26,36 @@ type c02Hist struct {
 	RelEach  bool   `json:"release_after_each_next,omitempty"` // the reader is Released after every Next (the decoder stays)
 }
 
+// c02HistN: the values every history product ranges over; index c02HistN is one more value, larger than 1 MiB, used in
+// dedicated sequences only (c02HugeSeqs).
+const c02HistN = 6
+
+var c02HistVals []ref.Value
+
 func c02HistValues() []ref.Value {
+	if c02HistVals != nil {
+		return c02HistVals
+	}
 	big := ref.Value{T: ref.STRING, S: bytes.Repeat([]byte{0x31, 0x32, 0x33}, 3000)}
 	mid := ref.Value{T: ref.STRING, S: bytes.Repeat([]byte{0x41}, 4097)}
 	// strings whose end falls just below a doubled buffer size once a small value has been consumed before them
 	near8k := ref.Value{T: ref.STRING, S: bytes.Repeat([]byte{0x42}, 8180)}
 	near16k := ref.Value{T: ref.STRING, S: bytes.Repeat([]byte{0x43}, 16376)}
-	return []ref.Value{
+	huge := ref.Value{T: ref.STRING, S: stream(1<<20 + 333)}
+	c02HistVals = []ref.Value{
 		gen.Small(ref.LIST, 0),
 		big,
 		{T: ref.STRUCT, F: []ref.Field{{ID: 1, V: gen.Small(ref.MAP, 0)}, {ID: 2, V: gen.Small(ref.I64, 0)}}},
 		mid,
 		near8k,
 		near16k,
+		huge,
 	}
+	return c02HistVals
 }
+
+// c02HugeSeqs: sequences around a value larger than 1 MiB (beyond every retention threshold of pooled scratch buffers)
+var c02HugeSeqs = [][]int{{6}, {6, 0}, {0, 6}, {6, 1}, {6, 6}, {3, 6, 0}, {6, 5, 6}}
 
 var c02Poison = []byte{0x55, 0x00, 0x01, 0x02, 0x03, 0x04, 0x05, 0x06}
 
@@ -196,7 +211,7 @@ func c02HistOne(c *mc.Ctx, k c02Hist) {
 }
 
 func c02Histories(c *mc.Ctx) {
-	nv := len(c02HistValues())
+	nv := c02HistN
 	envs := []EnvCfg{{}, {Chunk: 4097}, {Chunk: 100, ErrWithLast: true}, {Chunk: 1, ZeroReads: 1}}
 	var seqs [][]int
 	for a := 0; a < nv; a++ {
@@ -208,6 +223,7 @@ func c02Histories(c *mc.Ctx) {
 			}
 		}
 	}
+	seqs = append(seqs, c02HugeSeqs...)
 	// a Next that fails part-way (peek-only decoders consume nothing), then well-formed values on the SAME decoder
 	var pseqs [][]int
 	for a := 0; a < nv; a++ {
@@ -240,5 +256,5 @@ func c02Histories(c *mc.Ctx) {
 		}
 	}
 	c.Sample("decoder-history", c02Hist{Decoder: skReaderSkip, Seq: []int{0, 1, 0}, Env: envs[2]})
-	c.Done("decoder histories: all sequences of <=3 Next calls over 4 values of different size classes x 4 decoders x fragmentation, twice (pool reuse)")
+	c.Done("decoder histories: all sequences of <=3 Next calls over 6 values of different size classes (+ 7 sequences around a value > 1 MiB) x 4 decoders x fragmentation, twice (pool reuse)")
 }
